@@ -209,7 +209,7 @@ def make_parent(sh):
         if variant == 'bare':
             p = ParentInstr(ded=Ch('pd', [None, 'X', 'Y']))
         elif variant == 'param':
-            p = ParentInstr(ded=Ch('pd', [None, 'X']), fields=[PField(('n', 'pa'), attrs=[('map', ('n', 'qa'), None)], tag='pa'), PField(('n', 'pb'), tag='pb'),
+            p = ParentInstr(ded=Ch('pd', [None, 'X']), fields=[PField(('n', 'pa'), attrs=[('map', ('n', 'qa'), None)], tag='pa'), PField(('n', 'pb'), attrs=[('owned_into', ('n', 'qo'), None), ('ref_into', ('n', 'qr'), None)], tag='pb'),
                                                              PField(('n', 'pc'), attrs=[('from', None, '__pc(~, @)'), ('into', ('n', 'qc'), '__pc2(~)')], tag='pc')])
         else:
             p = ParentInstr(ded=None, fields=[PField(('n', 'pa'), tag='pa'), PField(('n', 'na'), attrs=[('map', ('n', 'ma'), None)], sub_path=[(('n', 'sub'), 'SubT')], tag='na'),
